@@ -171,3 +171,21 @@ func (r *Reach) Reached(f *ssa.Function) bool {
 	}
 	return false
 }
+
+var siteCalleeIndex map[ssa.CallInstruction][]*ssa.Function
+
+// CalleesAt returns the call graph's callees of a call site (dynamic calls
+// resolved by VTA).
+func (p *Program) CalleesAt(site ssa.CallInstruction) []*ssa.Function {
+	if siteCalleeIndex == nil {
+		siteCalleeIndex = map[ssa.CallInstruction][]*ssa.Function{}
+		for _, n := range p.CallGraph().Nodes {
+			for _, e := range n.Out {
+				if e.Site != nil {
+					siteCalleeIndex[e.Site] = append(siteCalleeIndex[e.Site], e.Callee.Func)
+				}
+			}
+		}
+	}
+	return siteCalleeIndex[site]
+}
